@@ -274,6 +274,12 @@ TruncBatches(batches, call) ==
           ELSE batches[i]]
   ELSE batches
 
+(* a COMPLETED delete ends the incarnation: its batches are forgotten (the next incarnation assigns the *)
+(* same positions again, and an empty record of it at the position of an empty record of an old batch *)
+(* would be read as a piece of that batch)                                                            *)
+DoneBatches(batches, call) ==
+  IF call.op = "delete" /\ call.q >= 0 THEN SelectSeq(batches, LAMBDA b : b.q # call.q) ELSE TruncBatches(batches, call)
+
 CrashViol(r, c) ==
   IF r.out # "ok" THEN
      (IF AlwaysPolicy(c.policy) /\ r.model = "process" THEN {<<"C02", "open failed after crash: " \o r.out>>} ELSE {})
@@ -562,7 +568,7 @@ TrEnd ==
                   ELSE LET c1 == [c EXCEPT !.qm = qm2, !.asg = asg2, !.cur = NoCall, !.attr = attr2, !.amb = amb2,
                                            !.pendP = newPend(@, "process"), !.pendW = newPend(@, "power"),
                                            !.batches = IF executed /\ call.op = "append" THEN Append(@, BatchOf(c.qm, call))
-                                                       ELSE IF executed THEN TruncBatches(@, call) ELSE @,
+                                                       ELSE IF executed THEN DoneBatches(@, call) ELSE @,
                                            !.step = @ + 1]
                        IN IF hasSt THEN WithPrev(c1, R.st) ELSE c1
   /\ UNCHANGED saved
@@ -772,6 +778,18 @@ TrObstacle ==
         /\ nviol' = nviol + Cardinality(V)
   /\ UNCHANGED <<ctx, saved, refObs>>
 
+(* C15 when the GC pass of a truncate / delete meets an I/O error (the oldest file was removed behind *)
+(* the library's back): a call that returns Ok reports exactly the bytes it appended                  *)
+TrGcFail ==
+  /\ R.ev = "gcfail"
+  /\ LET V == IF R.k = "ok" /\ R.reported # R.written
+              THEN {<<"C15", R.op \o " whose GC pass met an I/O error returned Ok and reported " \o ToString(R.reported) \o
+                             " bytes, but appended " \o ToString(R.written)>>}
+              ELSE {}
+     IN /\ Report(V)
+        /\ nviol' = nviol + Cardinality(V)
+  /\ UNCHANGED <<ctx, saved, refObs>>
+
 TrPop ==
   /\ R.ev = "pop"
   /\ ctx' = saved
@@ -781,7 +799,7 @@ TrPop ==
 TraceNext ==
   /\ l <= NLines
   /\ l' = l + 1
-  /\ \/ TrRun \/ TrInit \/ TrBegin \/ TrEnd \/ TrCrash \/ TrPop \/ TrDamage \/ TrFault \/ TrName \/ TrDirHist \/ TrPair \/ TrPairCrash \/ TrFrames \/ TrExpect \/ TrCodec \/ TrObstacle
+  /\ \/ TrRun \/ TrInit \/ TrBegin \/ TrEnd \/ TrCrash \/ TrPop \/ TrDamage \/ TrFault \/ TrName \/ TrDirHist \/ TrPair \/ TrPairCrash \/ TrFrames \/ TrExpect \/ TrCodec \/ TrObstacle \/ TrGcFail
 
 TraceInit ==
   /\ l = 1
